@@ -31,7 +31,7 @@ struct Item {
 };
 struct Scenario {
     std::string name;
-    long B = 0x20000, Q = 10, post = 0, nreads = -1, method = 0, level = 0, cut = -1, chop = 0, hdr0 = 0, badcont = -1;
+    long B = 0x20000, Q = 10, post = 0, nreads = -1, method = 0, level = 0, cut = -1, chop = 0, hdr0 = 0, badcont = -1, surplus = 0;
     bool emptyFile = false;       // no complete container at all
     std::vector<long> pends;      // file offset behind the stored payload of each container
     std::string tail = "eof";
@@ -67,6 +67,7 @@ static std::vector<Scenario> load_scenarios(const char * fn) {
                 else if (k == "CHOP") s.chop = atol(x.c_str());
                 else if (k == "HDR0") s.hdr0 = atol(x.c_str());
                 else if (k == "BADCONT") s.badcont = atol(x.c_str());
+                else if (k == "SURPLUS") s.surplus = atol(x.c_str());
                 else if (k == "TAIL") s.tail = x;
                 else if (k == "REF") s.ref = x;
             }
@@ -182,6 +183,15 @@ static void build(Scenario & s, const std::string & dir, bool writeFile) {
     s.pends.clear();
     for (long u : conts) {
         std::vector<uint8_t> c = kit::container_bytes(s.stream.data() + off, (size_t) u, (int) s.method, (int) s.level);
+        if ((long) s.pends.size() == s.badcont && s.surplus > 0 && s.method == 0) {
+            // a stored container that carries more bytes than it declares (a foreign writer's fill bytes):
+            // uncompress() refuses it - the declared size is what flow control and dropOldData account for
+            c.resize(32 + (size_t) u);
+            c.insert(c.end(), (size_t) s.surplus, (uint8_t) 0xEE);
+            uint32_t osz = (uint32_t) c.size();
+            memcpy(c.data() + 8, &osz, 4);
+            c.insert(c.end(), osz % 4, (uint8_t) 0);
+        } else
         if ((long) s.pends.size() == s.badcont && c.size() > 40) {       // damage the deflate stream: uncompress() throws
             for (size_t q = 34; q < c.size() && q < 44; q++) c[q] ^= 0xff;
         }
@@ -712,7 +722,8 @@ int main(int argc, char ** argv) {
                         steps++;
                         {
                             long held = 0;
-                            for (auto & c : S.file->m_uncompressedFile.m_data) held += (long) c->uncompressedFileSize;
+                            for (auto & c : S.file->m_uncompressedFile.m_data)      // declared size, or what is really stored if that is more
+                                held += (long) std::max((size_t) c->uncompressedFileSize, std::max(c->uncompressedFile.size(), c->compressedFile.size()));
                             if (held > maxHeld) maxHeld = held;
                             long ql = (long) S.file->m_readWriteQueue.m_queue.size();
                             if (ql > maxQ) maxQ = ql;
